@@ -34,3 +34,10 @@ pub use self::core::{MasterPublicKey, MasterSecretKey, UserSecretKey, XEnc};
 pub use abe_policy::AccessPolicy;
 pub use encrypted_header::{CleartextHeader, EncryptedHeader};
 pub use error::Error;
+
+/// Verification hooks, compiled only with `--cfg cosmian_cover_crypt_verif` (never in normal builds): expose the
+/// crate-private data structures to the external verification harness. Add-only; no behaviour changes.
+#[cfg(cosmian_cover_crypt_verif)]
+pub mod verif_hooks {
+    pub use crate::data_struct::{error::Error as DataStructError, Dict, RevisionMap, RevisionVec};
+}
